@@ -40,6 +40,18 @@ Proof.
 Qed.
 Print Assumptions C15_window.
 
+(* Consecutive periods tile the slot line: a call for the next period made before this period ends
+   starts its window exactly one slot after this period's window ends (the slot before a period's
+   last slot is this period's last duty, the last slot itself is the next period's first): no slot
+   without a message duty, none with two. *)
+Theorem C15_windows_tile :
+  forall p epoch cur,
+    chain_ok p -> cur < period_end p epoch ->
+    period_start p (epoch + epp p) = period_end p epoch
+    /\ spec_first p (epoch + epp p) cur = spec_last p epoch + 1.
+Proof. exact windows_tile. Qed.
+Print Assumptions C15_windows_tile.
+
 (* No uint64 subtraction of the repaired window wraps and no product or sum overflows:
    lastEpoch = next - 1 has next >= 1, lastSlot = FirstSlotOfEpoch(lastEpoch + 1) - 2 has a first
    operand >= 2 (and it is the exact first slot after the period), the guarded firstSlot-- is
